@@ -93,27 +93,54 @@ def _parse_cond(c):
     return [_parse_atom(x) for x in c.split("&&")]
 
 
-def _parse_checks(body):
-    body = body.strip()
-    names = []
-    # allowed statements: `auto to_max = numeric_limits<T_To>::max();` and dynamic_check(<cond>, err_msg);
-    stmts = [x.strip() for x in body.split(";") if x.strip()]
-    for st in stmts:
-        if re.fullmatch(r"auto\s+to_max\s*=\s*numeric_limits<T_To>::max\(\)", st):
-            continue
-        m = re.fullmatch(r"dynamic_check\((.*),\s*err_msg\)", st, flags=re.S)
-        if not m:
-            raise ValueError("unknown statement: " + st)
-        for pat, name in CHECKS:
-            if re.fullmatch(pat, m.group(1).strip()):
-                names.append(name)
-                break
+def _parse_check_stmt(st):
+    """one statement of a body: None for the `to_max` declaration, the check name for a dynamic_check"""
+    st = st.strip()
+    if re.fullmatch(r"(?:const\s+)?auto\s+to_max\s*=\s*" + NL_ + r"max\(\)", st):
+        return None
+    m = re.fullmatch(r"(?:detail::)?dynamic_check\((.*),\s*err_msg\)", st, flags=re.S)
+    if not m:
+        raise ValueError("unknown statement: " + st)
+    for pat, name in CHECKS:
+        if re.fullmatch(pat, " ".join(m.group(1).split())):
+            return name
+    raise ValueError("unknown check: " + m.group(1))
+
+
+def _split_body(t):
+    """statements and nested if-constexpr chains of a body, in order: [('stmt', text) | ('chain', text)]"""
+    out, t = [], t.strip()
+    while t:
+        if re.match(r"if\s+constexpr\s*\(", t):
+            # consume the whole chain: if (...) {...} [else if (...) {...}]* [else {...}]
+            k = 0
+            while True:
+                m = re.match(r"(?:else\s+)?if\s+constexpr\s*\(", t[k:]) or re.match(r"else\s*\{", t[k:])
+                if not m:
+                    break
+                b0 = t.index("{", k + (m.end() - 1 if t[k + m.end() - 1] == "{" else 0)) if m.group(0).rstrip().endswith("{") else None
+                if b0 is None:
+                    depth, q = 1, k + m.end()
+                    while depth:
+                        depth += {"(": 1, ")": -1}.get(t[q], 0)
+                        q += 1
+                    b0 = t.index("{", q)
+                b1 = _match_brace(t, b0)
+                k = b1 + 1
+                while k < len(t) and t[k].isspace():
+                    k += 1
+                if not t[k:].startswith("else"):
+                    break
+            out.append(("chain", t[:k]))
+            t = t[k:].strip()
         else:
-            raise ValueError("unknown check: " + m.group(1))
-    return names
+            q = t.index(";")
+            out.append(("stmt", t[:q]))
+            t = t[q + 1:].strip()
+    return out
 
 
-def _parse_chain(t):
+def _parse_chain(t, names):
     """`if constexpr (C) {B} else if constexpr (C) {B} ... [else {B}]` -> [(atoms, body_text)]; else has atoms []"""
     t = t.strip()
     out = []
@@ -124,10 +151,12 @@ def _parse_chain(t):
             while depth:
                 depth += {"(": 1, ")": -1}.get(t[j], 0)
                 j += 1
-            cond = t[m.end():j - 1]
+            cond = " ".join(t[m.end():j - 1].split())
+            for nm, ex in names.items():
+                cond = re.sub(r"\b" + nm + r"\b", "(" + ex + ")", cond)
             b0 = t.index("{", j)
             b1 = _match_brace(t, b0)
-            out.append((_parse_cond(" ".join(cond.split())), t[b0 + 1:b1]))
+            out.append((_parse_cond(cond), t[b0 + 1:b1]))
             t = t[b1 + 1:].strip()
             continue
         m = re.match(r"else\s*\{", t)
@@ -141,24 +170,37 @@ def _parse_chain(t):
     return out
 
 
+def _body_items(body, names, depth):
+    items = []
+    for kind, text in _split_body(body):
+        if kind == "stmt":
+            c = _parse_check_stmt(text)
+            if c is not None:
+                items.append(".chk ." + c if depth == 0 else "." + c)
+        else:
+            if depth > 0:
+                raise ValueError("more than two nesting levels")
+            sub = _parse_chain(text, names)
+            subs = ", ".join("([" + ", ".join(sa) + "], [" + ", ".join(_body_items(sb, names, 1)) + "])" for sa, sb in sub)
+            items.append(".ifs [" + subs + "]")
+    return items
+
+
 def conv_chain_lean(conv_src):
     """Lean term of type `Rlbox.ConvChain.Chain` for the integer branch, or an error marker"""
     try:
         i = conv_src.index("else if_constexpr_named(cond5")
         j = conv_src.index("to = static_cast<T_To>(from);", i)
         blk = _strip_line_comments(conv_src[i:j])
-        blk = blk[blk.index("if constexpr"):]
-        top = _parse_chain(blk)
-        items = []
-        for atoms, body in top:
-            if "if constexpr" in body:
-                sub = _parse_chain(body)
-                subs = ", ".join("([" + ", ".join(sa) + "], [" + ", ".join("." + c for c in _parse_checks(sb)) + "])" for sa, sb in sub)
-                items.append("([" + ", ".join(atoms) + "], .sub [" + subs + "])")
-            else:
-                items.append("([" + ", ".join(atoms) + "], .checks [" + ", ".join("." + c for c in _parse_checks(body)) + "])")
+        k = re.search(r"\bif\s+constexpr\s*\(", blk).start()
+        # named compile-time conditions declared before the chain
+        names = {}
+        for m in re.finditer(r"constexpr\s+(?:const\s+)?(?:bool|auto)\s+(\w+)\s*=\s*([^;]+);", blk[:k]):
+            names[m.group(1)] = " ".join(m.group(2).split())
+        top = _parse_chain(blk[k:], names)
+        items = ["([" + ", ".join(atoms) + "], [" + ", ".join(_body_items(body, names, 0)) + "])" for atoms, body in top]
         return "[" + ",\n   ".join(items) + "]", None
-    except (ValueError, IndexError) as e:
+    except (ValueError, IndexError, AttributeError) as e:
         return "[]", str(e)
 
 
@@ -205,8 +247,12 @@ def generate(repo):
     post = body_of("PostIncDecOps")
     m = re.search(r"operator\s*(\S+?)\s*\(\s*\)\s*;", post)
     called = m.group(1).replace("\\", "").strip() if m else "?"
-    # `opSymbol##opSymbol` means "the same symbol as the operator being defined"
+    # the post form steps through ITS OWN symbol: either it calls the pre form `operator opSymbol##opSymbol()` (token paste of
+    # its own symbol) or it inlines `this_ref = this_ref opSymbol 1`
+    m2 = re.search(r"=\s*\(?\s*[\w().*]+\s*(\S+)\s*1\s*\)?\s*;", post.replace("\\", " "))
+    own = called == "opSymbol##opSymbol" or (m is None and m2 is not None and m2.group(1) == "opSymbol")
     L.append(f'def postIncDecCalls : String := "{called}"')
+    L.append("def postIncDecUsesOwnSymbol : Bool := " + ("true" if own else "false"))
     pre = body_of("PreIncDecOps")
     m = re.search(r"this_ref\s*=\s*this_ref\s*(\S+)\s*(\d+)\s*;", pre)
     L.append(f'def preIncDecStep : String × Nat := ("{m.group(1) if m else "?"}", {m.group(2) if m else 0})')
@@ -255,9 +301,19 @@ def generate(repo):
         m = re.search(pat, body)
         return m.start() if m else -1
     p_find, p_erase, p_impl = pos(dbody, r"std::find\(\s*sandbox_list"), pos(dbody, r"sandbox_list\.erase"), pos(dbody, r"impl_destroy_sandbox\s*\(")
-    between = dbody[p_find:p_erase] if 0 <= p_find < p_erase else "X{"
-    one_guard = (0 <= p_find < p_erase and "RLBOX_ACQUIRE" not in between and "{" not in between and "}" not in between and
-                 re.search(r"RLBOX_ACQUIRE_UNIQUE_GUARD\(\s*\w+\s*,\s*sandbox_list_lock\s*\)\s*;\s*auto\s+\w+\s*=\s*std::find\(\s*sandbox_list", dbody) is not None)
+    # the UNIQUE guard that is in force at the lookup must still be in force at the erase: no scope of the guard's block
+    # is closed, and no other guard is taken, between the acquisition and the erase
+    guards = [m.start() for m in re.finditer(r"RLBOX_ACQUIRE_UNIQUE_GUARD\(\s*\w+\s*,\s*sandbox_list_lock\s*\)", dbody)]
+    p_guard = max([g for g in guards if g < p_find], default=-1) if p_find >= 0 else -1
+    one_guard = False
+    if 0 <= p_guard < p_find < p_erase:
+        seg = dbody[p_guard:p_erase]
+        depth, ok = 0, seg.count("RLBOX_ACQUIRE") == 1
+        for ch in seg:
+            depth += {"{": 1, "}": -1}.get(ch, 0)
+            if depth < 0:
+                ok = False
+        one_guard = ok
     unlink_first = 0 <= p_erase < p_impl and "make_scope_exit" not in dbody[:p_erase]
     p_push, p_cimpl = pos(cbody, r"sandbox_list\.push_back"), pos(cbody, r"impl_create_sandbox\s*\(")
     L.append("def destroyFindAndEraseInOneGuard : Bool := " + ("true" if one_guard else "false"))
